@@ -2,10 +2,10 @@ import TapkeeVerif.Model.Connected
 /-! Property C03 — theorems (work in progress; see Proofs/Connected*.lean). -/
 namespace TapkeeVerif.Connected
 
-/-- F-CONN-DIR, model level: a 2-out-regular graph (outlier first) that `is_connected` accepts
-    although it is not strongly connected. -/
-theorem isConnected_accepts_not_strongly_connected_witness :
-    isConnected 4 [[1, 2], [2, 3], [1, 3], [1, 2]] = .ok true ∧
+/-- regression witness of F-CONN-DIR (fixed in 821c976): the 2-out-regular graph "outlier first", which the
+    old reach-from-0 test accepted although it is not strongly connected, is rejected. -/
+theorem isConnected_rejects_outlier_first :
+    isConnected 4 [[1, 2], [2, 3], [1, 3], [1, 2]] = .ok false ∧
       stronglyConnected [[1, 2], [2, 3], [1, 3], [1, 2]] 4 = false := by decide
 
 end TapkeeVerif.Connected
